@@ -49,6 +49,12 @@ CONSTANTS
     CBelow, CHi, \* a DOUBLED centroid coordinate ranges over -CBelow .. CHi (cfg files cannot hold negative numbers)
     Ks,         \* set of centroid counts explored
     Ordered,    \* TRUE: only lexicographically non-decreasing data sequences
+    Adjacent,   \* FALSE: lattice arithmetic is exact (the scope of the check).  TRUE: what-if analysis of
+                \*   floating-point rows ONE ULP APART: when the two extreme values of the split coordinate
+                \*   are neighbouring lattice values they stand for neighbouring floats, whose midpoint is
+                \*   not representable and rounds to either of them (see BbdFilterULP_*.cfg)
+    FixCutoff,  \* TRUE: model the suggested repair (a cutoff that is not above the lower bound is
+                \*   replaced by the upper bound) instead of the code as it is
     Replay,     \* TRUE: print one REPLAY line per selected terminal state
     RMod        \* replay sampling: 1 = every terminal state, m = about one in m
 
@@ -61,9 +67,10 @@ VARIABLES
     pc,         \* "build" | "built" | "filter" | "done" | "fault"
     cents,      \* sequence of doubled centroids (chosen when the tree is built)
     fstack,     \* filter recursion: frames [node, cands]
-    sums, counts, member, dist      \* outputs of clustering()
+    sums, counts, member, dist,     \* outputs of clustering()
+    tab         \* history variable for the invariants: 4 * squared distance of every row to every centroid
 
-vars == <<data, index, nodes, bstack, ret, pc, cents, fstack, sums, counts, member, dist>>
+vars == <<data, index, nodes, bstack, ret, pc, cents, fstack, sums, counts, member, dist, tab>>
 
 N == Len(data)
 Point == [1..Dim -> Vals]
@@ -159,7 +166,29 @@ BLeaf ==
                          center2 |-> VecAdd(lo, hi), radius2 |-> [j \in 1..Dim |-> hi[j] - lo[j]],
                          sum |-> VecScale(data[index[b + 1]], e - b),
                          cost |-> RZero, lower |-> 0, upper |-> 0]), Pop(bstack))
-    /\ UNCHANGED <<data, index, cents, fstack, sums, counts, member, dist>>
+    /\ UNCHANGED <<data, index, cents, fstack, sums, counts, member, dist, tab>>
+
+(***************************************************************************)
+(* `split_cutoff = node.center[split_index]`, doubled.  On the lattice the *)
+(* midpoint (lo+hi)/2 is exact.  With Adjacent = TRUE neighbouring lattice *)
+(* values play the role of neighbouring floats: their midpoint has no      *)
+(* representation and IEEE rounding returns one of the two (which one      *)
+(* depends on the parity of the last mantissa bit), so both are explored.  *)
+(* Repaired() is the suggested one-line fix of build_node.                 *)
+(***************************************************************************)
+Cutoffs(l, h) == IF Adjacent /\ h - l = 1 THEN {2 * l, 2 * h} ELSE {l + h}
+Repaired(c2, l, h) == IF FixCutoff /\ c2 <= 2 * l THEN 2 * h ELSE c2
+
+(* pr = <<index', size>> returned by the partition loop *)
+SplitAt(b, e, sd, pr) ==
+    IF pr[2] < 1 \/ pr[2] >= e - b
+    THEN /\ pc' = "fault"          \* usize underflow, or an empty child: unbounded recursion
+         /\ UNCHANGED <<index, bstack>>
+    ELSE /\ index' = pr[1]
+         /\ bstack' = Append([bstack EXCEPT ![Len(bstack)] =
+                                  [@ EXCEPT !.phase = "lower", !.size = pr[2]]],
+                             Frame(b, b + pr[2]))
+         /\ pc' = "build"
 
 (* build_node, first half, splitting branch: partition the range around the
    box centre of the widest coordinate, recurse into the lower part *)
@@ -169,18 +198,11 @@ BSplit ==
            lo == Lo(index, b, e)   hi == Hi(index, b, e)
            radius2 == [j \in 1..Dim |-> hi[j] - lo[j]]
            sd == SplitDim(radius2)
-           pr == PartLoop(index, b, e - 1, 0, sd, lo[sd] + hi[sd])
        IN  /\ \E j \in 1..Dim : hi[j] # lo[j]
-           /\ IF pr[2] < 1 \/ pr[2] >= e - b
-              THEN /\ pc' = "fault"          \* underflow, or an empty child: unbounded recursion
-                   /\ UNCHANGED <<index, bstack>>
-              ELSE /\ index' = pr[1]
-                   /\ bstack' = Append([bstack EXCEPT ![Len(bstack)] =
-                                            [@ EXCEPT !.phase = "lower", !.size = pr[2]]],
-                                       Frame(b, b + pr[2]))
-                   /\ pc' = "build"
+           /\ \E raw \in Cutoffs(lo[sd], hi[sd]) :
+                 SplitAt(b, e, sd, PartLoop(index, b, e - 1, 0, sd, Repaired(raw, lo[sd], hi[sd])))
     /\ ret' = 0
-    /\ UNCHANGED <<data, nodes, cents, fstack, sums, counts, member, dist>>
+    /\ UNCHANGED <<data, nodes, cents, fstack, sums, counts, member, dist, tab>>
 
 (* the lower child has been built: recurse into the upper part *)
 BLowerDone ==
@@ -188,7 +210,7 @@ BLowerDone ==
     /\ bstack' = Append([bstack EXCEPT ![Len(bstack)] = [@ EXCEPT !.phase = "upper", !.lower = ret]],
                         Frame(Top.begin + Top.size, Top.end))
     /\ ret' = 0
-    /\ UNCHANGED <<data, index, nodes, pc, cents, fstack, sums, counts, member, dist>>
+    /\ UNCHANGED <<data, index, nodes, pc, cents, fstack, sums, counts, member, dist, tab>>
 
 (* both children built: sum = lower.sum + upper.sum, cost = scatter of the two
    children around the node's own mean; add_node *)
@@ -204,7 +226,7 @@ BUpperDone ==
                       sum |-> s,
                       cost |-> RAdd(CostAtMean(lw, s, e - b), CostAtMean(up, s, e - b)),
                       lower |-> Top.lower, upper |-> ret]), Pop(bstack))
-    /\ UNCHANGED <<data, index, cents, fstack, sums, counts, member, dist>>
+    /\ UNCHANGED <<data, index, cents, fstack, sums, counts, member, dist, tab>>
 
 (* ------------------------------------------------------------------ filter *)
 (* clustering(): any centroid set of the scope; counts / sums zeroed,
@@ -216,6 +238,7 @@ Choose ==
           /\ sums' = [c \in 1..k |-> [j \in 1..Dim |-> 0]]
           /\ counts' = [c \in 1..k |-> 0]
           /\ fstack' = << [node |-> ret, cands |-> [c \in 1..k |-> c]] >>
+          /\ tab' = SqTable(data, cs, [c \in 1..k |-> 2])
     /\ member' = [i \in 1..N |-> 0]
     /\ dist' = RZero
     /\ pc' = "filter"
@@ -258,7 +281,7 @@ FDescend ==
        IN  /\ nd.lower # 0 /\ Len(newc) > 1
            /\ fstack' = << [node |-> nd.lower, cands |-> newc],
                            [node |-> nd.upper, cands |-> newc] >> \o Tail(fstack)
-    /\ UNCHANGED <<data, index, nodes, bstack, ret, pc, cents, sums, counts, member, dist>>
+    /\ UNCHANGED <<data, index, nodes, bstack, ret, pc, cents, sums, counts, member, dist, tab>>
 
 (* the whole node goes to `closest` *)
 Absorb(nd, closest) ==
@@ -270,7 +293,7 @@ Absorb(nd, closest) ==
     /\ dist' = RAdd(dist, CostAtCentroid(nd, cents[closest]))
     /\ fstack' = Tail(fstack)
     /\ pc' = IF Tail(fstack) = <<>> THEN "done" ELSE "filter"
-    /\ UNCHANGED <<data, index, nodes, bstack, ret, cents>>
+    /\ UNCHANGED <<data, index, nodes, bstack, ret, cents, tab>>
 
 (* leaf: all rows coincide with the box centre *)
 FAbsorbLeaf ==
@@ -298,6 +321,7 @@ Init ==
     /\ ret = 0
     /\ pc = "build"
     /\ cents = <<>> /\ fstack = <<>> /\ sums = <<>> /\ counts = <<>> /\ member = <<>> /\ dist = RZero
+    /\ tab = <<>>
 
 Next == BLeaf \/ BSplit \/ BLowerDone \/ BUpperDone \/ Choose \/ FDescend \/ FAbsorbLeaf \/ FAbsorbPruned
 
@@ -316,7 +340,7 @@ FilterCorrectAt(T, cd2) ==
     \* the fixed-point form used on recorded events accepts the exact value (S = 4)
     /\ DistortionFxOK(T, cd2, N, (2 * dist[1] * 16 + dist[2]) \div (2 * dist[2]), 4)
 
-FilterCorrect == pc = "done" => FilterCorrectAt(SqTable(data, cents, CdAll), Sq(CdAll))
+FilterCorrect == pc = "done" => FilterCorrectAt(tab, Sq(CdAll))
 
 BuildSafe == pc # "fault"
 
@@ -359,14 +383,13 @@ TreeWellFormed ==
 
 (* pruning invariant: whatever node is about to be visited, every row of it
    has one of its nearest centroids in the candidate list of the frame *)
+FrameSafe(f, nd, cd2) ==
+    /\ Len(f.cands) >= 1
+    /\ \A p \in (nd.begin + 1)..(nd.begin + nd.count) :
+          \E ci \in 1..Len(f.cands) : IsNearest(tab[index[p]], cd2, f.cands[ci])
+
 FilterSafe ==
-    pc = "filter" =>
-        LET T == SqTable(data, cents, CdAll)   cd2 == Sq(CdAll)
-        IN  \A fi \in 1..Len(fstack) :
-              LET f == fstack[fi]   nd == nodes[f.node]
-              IN  /\ Len(f.cands) >= 1
-                  /\ \A p \in (nd.begin + 1)..(nd.begin + nd.count) :
-                        \E ci \in 1..Len(f.cands) : IsNearest(T[index[p]], cd2, f.cands[ci])
+    pc = "filter" => \A fi \in 1..Len(fstack) : FrameSafe(fstack[fi], nodes[fstack[fi].node], Sq(CdAll))
 
 (* spec -> impl: one line per selected terminal state, replayed through the
    real BBDTree by `c12 replay-spec`.  RMod > 1 takes a deterministic sample
